@@ -1,4 +1,4 @@
 From Coq Require Import Extraction ExtrOcamlBasic List NArith.
 From BioVerif Require Import Lib.Conv Model.APIConv.
 Extraction Language OCaml.
-Extraction "c34_model.ml" conv_anchor to_proto from_proto roundtrip.
+Extraction "c34_model.ml" conv_anchor to_proto from_proto roundtrip from_proto_h roundtrip_h empty_heap run_history.
